@@ -323,6 +323,12 @@ def main():
     chk.extra["long_history_ops"] = nlong
     os.environ.pop("BLDFM_VERIF_TRACE", None)
     validate_runtime_trace(chk, tracefile)
+    if t == "thorough":
+        from . import repo_tests
+
+        tf_, tail = repo_tests.record()
+        chk.extra["repo_tests_pytest"] = tail
+        chk.traces += repo_tests.runtime_events(chk, tf_)
     chk.rule = ("TLC computes the reachable (global state, request) pairs of Runtime.tla (8 requests, thread counts 1/2/4/8, manager resets, histories up to MaxOps) with a shortest history each; "
                 "every history is executed in one real process; a case is one history; plus one random history of %d operations" % nlong)
     for e in hists[:: max(1, len(hists) // 3)][:3]:
